@@ -24,6 +24,22 @@ type failure struct {
 	d   *Diff
 	o   Obs
 	key string
+	rel []*Group
+}
+
+func subset(a, b []string) bool {
+	for _, x := range a {
+		if !contains(b, x) {
+			return false
+		}
+	}
+	return true
+}
+
+func (c Cfg) same(d Cfg) bool {
+	a, _ := json.Marshal(c)
+	b, _ := json.Marshal(d)
+	return string(a) == string(b)
 }
 
 // ReplayAll executes every group against the real code (in parallel, order
@@ -33,16 +49,23 @@ func ReplayAll(c *core.Ctx, groups []*Group) *Stats {
 	st := &Stats{HonestSuccess: map[string]int64{}, ByDeviation: map[string]int64{}, SuccessByDeviation: map[string]int64{}}
 	st.Groups = int64(len(groups))
 	order := c.Rand("c03-order").Perm(len(groups))
+	index := map[string]*Group{}
+	for _, g := range groups {
+		index[g.Key()] = g
+	}
+	lookup := func(cf Cfg, devs []string) *Group {
+		return index[(&Group{Cfg: cf, Devs: devs}).Key()]
+	}
 	var mu sync.Mutex
 	var fails []failure
 	conform := int64(0)
 	core.ParallelFor(len(groups), 16, func(i int) {
 		g := groups[order[i]]
 		o := Run(g)
-		d, mach := Check(g, o)
+		d, mach := Check(g, o, lookup)
 		if mach != "" { // not a verdict about the code: look again before giving up
 			o = Run(g)
-			d, mach = Check(g, o)
+			d, mach = Check(g, o, lookup)
 			if mach != "" {
 				c.Broken("%s", mach)
 				return
@@ -84,28 +107,68 @@ func ReplayAll(c *core.Ctx, groups []*Group) *Stats {
 			return
 		}
 		o2 := Run(g)
-		d2, _ := Check(g, o2)
+		d2, _ := Check(g, o2, lookup)
 		if d2 == nil || d2.Invariant != d.Invariant {
 			c.Broken("non-reproducible difference for %s: %v, then %v", g.Key(), d, d2)
 			return
 		}
+		// the replay file carries the scenario and the scenarios it degenerates to when
+		// the peer does not get to use a switch
+		var related []*Group
+		for _, og := range groups {
+			if og != g && og.Cfg.same(g.Cfg) && subset(og.Devs, g.Devs) {
+				related = append(related, og)
+			}
+		}
 		mu.Lock()
-		fails = append(fails, failure{g, d, o, g.Key()})
+		fails = append(fails, failure{g, d, o, g.Key(), related})
 		mu.Unlock()
 	})
 	c.Add("traces_validated_against_impl", conform)
+	// Root deviation: if the same configuration falsifies the same invariant with a
+	// subset of the switches (possibly none), the signature names that subset -- the
+	// other switches are bystanders.
+	failed := map[string]bool{}
+	fkey := func(cf Cfg, devs []string, inv string) string {
+		return (&Group{Cfg: cf, Devs: devs}).Key() + "/" + inv
+	}
+	for _, f := range fails {
+		failed[fkey(f.g.Cfg, f.g.Devs, f.d.Invariant)] = true
+	}
+	root := func(f failure) []string {
+		best := f.g.Devs
+		n := len(f.g.Devs)
+		for mask := 0; mask < 1<<n; mask++ {
+			var sub []string
+			for i := 0; i < n; i++ {
+				if mask&(1<<i) != 0 {
+					sub = append(sub, f.g.Devs[i])
+				}
+			}
+			if sub == nil {
+				sub = []string{}
+			}
+			if len(sub) < len(best) && failed[fkey(f.g.Cfg, sub, f.d.Invariant)] {
+				best = sub
+			}
+		}
+		return best
+	}
 	// one failure per signature, the smallest scenario first (stable across seeds)
 	sort.Slice(fails, func(i, j int) bool { return fails[i].key < fails[j].key })
 	seen := map[string]int{}
 	for _, f := range fails {
 		sig := Signature(f.g, f.d)
+		if r := root(f); len(r) != len(f.g.Devs) {
+			continue // reported under its root deviation
+		}
 		k := fmt.Sprint(sig)
 		seen[k]++
 		if seen[k] > 1 {
 			continue
 		}
 		c.Fail(core.Failure{Signature: sig, Detail: f.d.Detail,
-			Scenario: map[string]any{"kind": "HandshakeEvil", "group": f.g, "observed": f.o}})
+			Scenario: map[string]any{"kind": "HandshakeEvil", "group": f.g, "related": f.rel, "observed": f.o}})
 	}
 	c.Set("failing_scenarios", len(fails))
 	c.Set("failing_signatures", len(seen))
@@ -124,15 +187,16 @@ func ReplayFile(c *core.Ctx) bool {
 	}
 	var rf struct {
 		Scenario struct {
-			Kind  string `json:"kind"`
-			Group *Group `json:"group"`
+			Kind    string   `json:"kind"`
+			Group   *Group   `json:"group"`
+			Related []*Group `json:"related"`
 		} `json:"scenario"`
 	}
 	if err := json.Unmarshal(b, &rf); err != nil || rf.Scenario.Kind != "HandshakeEvil" || rf.Scenario.Group == nil {
 		c.Broken("not a HandshakeEvil replay file")
 		return true
 	}
-	st := ReplayAll(c, []*Group{rf.Scenario.Group})
+	st := ReplayAll(c, append([]*Group{rf.Scenario.Group}, rf.Scenario.Related...))
 	c.Set("replayed", st.Executed)
 	return true
 }
